@@ -271,6 +271,53 @@ def direct_reducer_refs(fn: ast.FunctionDef):
     return sorted(names)
 
 
+def groupby_object_writes(tree):
+    """For class GroupBy: per method the attributes of `self` it assigns (or deletes / setattr's), the calls of
+    _unify_group_key_chunks with their keep_chunked flag, and the cached_property names."""
+    cls = [n for n in tree.body if isinstance(n, ast.ClassDef) and n.name == "GroupBy"]
+    if len(cls) != 1:
+        raise Unsupported("class GroupBy not found exactly once in core.py")
+    writes, unify, cached = [], [], []
+    for fn in [n for n in cls[0].body if isinstance(n, ast.FunctionDef)]:
+        attrs = set()
+        flags = []
+        for n in ast.walk(fn):
+            tg = []
+            if isinstance(n, ast.Assign):
+                tg = n.targets
+            elif isinstance(n, (ast.AugAssign, ast.AnnAssign)):
+                tg = [n.target]
+            elif isinstance(n, ast.Delete):
+                tg = n.targets
+            for t in tg:
+                for x in ast.walk(t):
+                    if isinstance(x, ast.Attribute) and isinstance(x.value, ast.Name) and x.value.id == "self":
+                        attrs.add(x.attr)
+            if isinstance(n, ast.Call) and isinstance(n.func, ast.Name) and n.func.id in ("setattr", "delattr"):
+                attrs.add("<setattr>")
+            if isinstance(n, ast.Attribute) and n.attr == "__dict__" and isinstance(n.value, ast.Name) and n.value.id == "self":
+                attrs.add("<__dict__>")
+            if isinstance(n, ast.Call) and isinstance(n.func, ast.Attribute) and n.func.attr == "_unify_group_key_chunks":
+                kc = False
+                for kw in n.keywords:
+                    if kw.arg == "keep_chunked":
+                        if not isinstance(kw.value, ast.Constant):
+                            fail(n, "non-literal keep_chunked")
+                        kc = bool(kw.value.value)
+                if n.args:
+                    if not isinstance(n.args[0], ast.Constant):
+                        fail(n, "non-literal keep_chunked")
+                    kc = bool(n.args[0].value)
+                flags.append(kc)
+        if attrs:
+            writes.append((fn.name, sorted(attrs)))
+        if flags:
+            unify.append((fn.name, flags))
+        if any("cached_property" in ast.unparse(d) for d in fn.decorator_list):
+            cached.append(fn.name)
+    return writes, unify, cached
+
+
 def gen_tables(trees):
     kern = []
     counters = []
@@ -296,6 +343,13 @@ def gen_tables(trees):
     out.append("Definition gen_kernel_reducers : list (string * list string) :=\n  [" + ";\n   ".join(f'("{k}", {coq_str_list(v)})' for k, v in sorted(kern)) + "].\n")
     out.append("(* dispatcher, reducers it selects by attribute rather than by name *)")
     out.append("Definition gen_direct_reducers : list (string * list string) :=\n  [" + ";\n   ".join(f'("{k}", {coq_str_list(v)})' for k, v in sorted(direct)) + "].\n")
+    gw, gu, gc = groupby_object_writes(trees["core"])
+    out.append("(* class GroupBy: method, attributes of self it assigns *)")
+    out.append("Definition gen_self_writes : list (string * list string) :=\n  [" + ";\n   ".join(f'("{k}", {coq_str_list(v)})' for k, v in gw) + "].\n")
+    out.append("(* class GroupBy: method, keep_chunked flag of each call of _unify_group_key_chunks in it *)")
+    out.append("Definition gen_unify_sites : list (string * list bool) :=\n  [" + ";\n   ".join(
+        f'("{k}", [' + "; ".join("true" if b else "false" for b in v) + '])' for k, v in gu) + "].\n")
+    out.append("Definition gen_cached_properties : list string := " + coq_str_list(gc) + ".\n")
     out.append("Definition gen_counter_dtypes : list (string * string * string) :=\n  [" + ";\n   ".join(f'("{a}", "{b}", "{c}")' for a, b, c in sorted(counters)) + "].\n")
     out.append("(* kernel, names written through a subscript, names bound to fresh allocations, parameters *)")
     out.append("Definition gen_write_sets : list (string * list string * list string * list string) :=\n  [" + ";\n   ".join(
